@@ -35,6 +35,7 @@ inductive Op where
   | seek (off : Nat)
   | close
   | note (id : Nat)            -- a marker of the test harness between API calls: no effect
+  | nexts                      -- any number of `nextBlock()` calls (a Read whose number of calls is not known)
 deriving DecidableEq, Repr, Inhabited
 
 /-- Program counter and local `next` of the worker goroutine. -/
@@ -116,20 +117,30 @@ def good (b : Blk) : Bool := b.next.isSome
 def apiStep (cfg : Cfg) (s : State) (choice fail : Bool) : Option (Option Ev × State) :=
   match s.cons with
   | .idle =>
-    if choice || fail then none else
+    if fail then none else
     match s.script with
     | [] => none
+    | .nexts :: rest =>
+      -- `choice`: the Read is over; otherwise one more nextBlock (only while the current block is a good one)
+      if choice then some (none, { s with script := rest })
+      else match s.cur.next with
+        | some e => some (none, { s with cons := .scan e 0 })
+        | none => none
     | .next :: rest =>
+      if choice then none else
       match s.cur.next with
       | some e => some (some (.call .next), { s with script := rest, cons := .scan e 0 })
       | none => some (some (.call .next), { s with script := rest, cons := .ret false })
     | .seek off :: rest =>
+      if choice then none else
       if s.cur.base = some off ∧ good s.cur then
         some (some (.call (.seek off)), { s with script := rest, cons := .ret true })
       else some (some (.call (.seek off)), { s with script := rest, cons := .sel off })
     | .close :: rest =>
+      if choice then none else
       some (some (.call .close), { s with script := rest, ctlClosed := true, cons := .closeW })
-    | .note id :: rest => some (some (.call (.note id)), { s with script := rest })
+    | .note id :: rest =>
+      if choice then none else some (some (.call (.note id)), { s with script := rest })
   | .scan e i =>
     if choice || fail then none else
     match s.working with
